@@ -36,17 +36,18 @@ def lagGrad (P : Prog α) (x u v : List α) : List α :=
 
 /-- `m_kkt` after `state.update(Q, c, A, b, G, h)`: the running maximum of the five tests.
     NB (the code that exists): test 5 is the norm of the Eigen expression `Q x + c + Aᵀ v + Gᵀ u`, whose size is that of its
-    LAST operand. `stack(...)` sizes `A` as `p × n` and `G` as `m × n` as soon as one constraint is given, but a program
-    without ANY constraint keeps the default `0 × 0` matrices: the expression is then empty and its norm is 0, i.e. for an
-    unconstrained program the stationarity test silently drops out of `m_kkt` (observed on the unchanged tree: `m_kkt = 0`
-    is returned with `|Q x + c|∞ = 0.25`; `m_kkt` is not used by any decision of the solver). -/
-def kktTest (P : Prog α) (x u v : List α) : α :=
+    LAST operand. `stack(...)` sizes `A` as `p × n` and `G` as `m × n` as soon as the caller states one constraint (and
+    `reduce` keeps the `n` columns even when it removes every row), but a program stated without ANY constraint keeps the
+    default `0 × 0` matrices: the expression is then empty and its norm is 0, i.e. for such a program (`unconstrained`) the
+    stationarity test silently drops out of `m_kkt` (observed on the unchanged tree: `m_kkt = 0` is returned with
+    `|Q x + c|∞ = 0.25`; `m_kkt` is not used by any decision of the solver). -/
+def kktTest (P : Prog α) (unconstrained : Bool) (x u v : List α) : α :=
   let g := slack P x
   let k1 := if P.G.isEmpty then 0 else cmax 0 (normInf (g.map (fun a => cmax a 0)))
   let k2 := if P.A.isEmpty then k1 else cmax k1 (normInf (vsub (mv P.A x) P.b))
   let k3 := if P.G.isEmpty then k2 else cmax k2 (normInf (u.map (fun a => cmax (-a) 0)))
   let k4 := if P.G.isEmpty then k3 else cmax k3 (normInf (hmul u g))
-  if P.G.isEmpty && P.A.isEmpty then k4 else cmax k4 (normInf (lagGrad P x u v))
+  if unconstrained then k4 else cmax k4 (normInf (lagGrad P x u v))
 
 /-! ### the loop of `solve_with_inequality` -/
 
@@ -107,8 +108,8 @@ def loop [Sqrt α] [FinTest α] (P : Prog α) (mufx : α) (par : Params α) (new
     let nw := newton k x u v st
     let acc := (exitKind P mufx par x u v st nw.1 nw.2.1 nw.2.2.1 nw.2.2.2).accepted
     match iterate P mufx par x u v st nw.1 nw.2.1 nw.2.2.1 nw.2.2.2 with
-    | .next x' u' v' st' => loop P mufx par newton fuel (k + 1) x' u' v' st' (kktTest P x' u' v')
-    | .stop status x' u' v' st' => ⟨k, x', u', v', st', if acc then kktTest P x' u' v' else kkt, status⟩
+    | .next x' u' v' st' => loop P mufx par newton fuel (k + 1) x' u' v' st' (kktTest P false x' u' v')
+    | .stop status x' u' v' st' => ⟨k, x', u', v', st', if acc then kktTest P false x' u' v' else kkt, status⟩
 
 /-- `solve_with_inequality(program, x0)` on the prepared (reduced, normalised) program. `nan` = the value the constructor
     of `solver_state_t` fills in. -/
@@ -121,9 +122,10 @@ def solveIneq [Sqrt α] [FinTest α] (P : Prog α) (mufx : α) (par : Params α)
   | some (u, v, st) => loop P mufx par newton par.maxIters 0 x0 u v st 0
 
 /-- `solve_without_inequality(program)` given the answer `(x, v)` of the LDLT solve of `kktMat P (kktTopLeft0 P) · z = kktVec0 P` -/
-def solveNoineq [Sqrt α] [FinTest α] (P : Prog α) (mufx : α) (par : Params α) (x v : List α) : RunSt α :=
+def solveNoineq [Sqrt α] [FinTest α] (P : Prog α) (mufx : α) (par : Params α) (unconstrained : Bool) (x v : List α) :
+    RunSt α :=
   let r := noineq P mufx par x v
-  ⟨0, x, [], v, r.2, kktTest P x [] v, r.1⟩
+  ⟨0, x, [], v, r.2, kktTest P unconstrained x [] v, r.1⟩
 
 /-! ### the starting point -/
 
@@ -172,7 +174,7 @@ def prepare [Sqrt α] (minNorm : α) (reduce : List (List α) → List α → Li
 def solveTop [Sqrt α] [FinTest α] (par : Params α) (nan gamma : α) (rounds : Nat) (orc : Oracles α) (P0 : Prog α)
     (userX0 : Option (List α)) : RunSt α :=
   let pp := prepare par.minNorm orc.reduce P0
-  if P0.G.isEmpty then solveNoineq pp.2 pp.1 par orc.kktSolve.1 orc.kktSolve.2
+  if P0.G.isEmpty then solveNoineq pp.2 pp.1 par P0.A.isEmpty orc.kktSolve.1 orc.kktSolve.2
   else
     let x0 := match userX0 with
       | some x => x
